@@ -106,8 +106,9 @@ type txn struct {
 }
 
 type savepoint struct {
-	name string
-	pos  int
+	name   string
+	pos    int
+	nlocks int // row locks held when the savepoint was set: ROLLBACK TO never gives those back
 }
 
 // Write is one row-level effect of a statement (engine-side ground truth).
@@ -410,6 +411,22 @@ func (s *Server) OpenTxConns() []int {
 }
 
 // RowLocks returns, per connection id, the number of row locks its transaction holds.
+// LockedRows returns, per connection id, the rows (TABLE:key text of the current version) its transaction has locked.
+func (s *Server) LockedRows() map[int][]string {
+	s.mu.Lock()
+	defer s.mu.Unlock()
+	out := map[int][]string{}
+	for id, c := range s.conns {
+		if c.tx == nil {
+			continue
+		}
+		for _, r := range c.tx.locks {
+			out[id] = append(out[id], r.key)
+		}
+	}
+	return out
+}
+
 func (s *Server) RowLocks() map[int]int {
 	s.mu.Lock()
 	defer s.mu.Unlock()
